@@ -30,6 +30,7 @@ Viol(ln) ==
 Report(ln, viol) == \A v \in viol : PrintT(<<"MONFAIL", ln.tr, ln.i, v>>)
 
 TraceInit == l = 1 /\ Report(Trace[1], Viol(Trace[1]))
+             /\ (Len(Trace) = 1 => PrintT(<<"CONSUMED", 1>>))
 TraceNext == /\ l < Len(Trace)
              /\ Report(Trace[l + 1], Viol(Trace[l + 1]))
              /\ l' = l + 1
